@@ -135,13 +135,15 @@ Definition new_log_from (id key : N) (s : sortfn) (deny : list N) (entries : oma
   mkLog id entries (from_entries heads') (build_next_index entries) maxt key key s deny.
 
 (* ---- traverse ---- *)
+Definition push_next (entries : omap) (st : list entry * list hash * bool) (c : hash) :=
+  let '(stack, seen, md) := st in
+  match oget entries c with
+  | None => (stack, seen, md)
+  | Some n => if mem (e_hash n) seen then (stack, seen, md)
+              else (n :: stack, e_hash n :: seen, true)
+  end.
 Definition push_nexts (entries : omap) (nexts : list hash) (st : list entry * list hash * bool) :=
-  fold_left (fun '(stack, seen, md) c =>
-      match oget entries c with
-      | None => (stack, seen, md)
-      | Some n => if mem (e_hash n) seen then (stack, seen, md)
-                  else (n :: stack, e_hash n :: seen, true)
-      end) nexts st.
+  fold_left (push_next entries) nexts st.
 
 Fixpoint trav (fuel : nat) (entries : omap) (s : sortfn) (amount : Z) (endh : option hash)
          (stack : list entry) (seen : list hash) (res : omap) (cnt : Z) : option omap :=
@@ -222,6 +224,10 @@ Definition append (l : log) (payload : N) (pc0 : Z) (h : hash) : log * outcome e
   end.
 
 (* ---- difference ---- *)
+Definition diff_push (lb : log) (st_sn : list hash * list hash) (n : hash) : list hash * list hash :=
+  let '(st, sn) := st_sn in
+  if negb (mem n sn) && negb (ohas (l_entries lb) n) then (st ++ [n], n :: sn) else (st, sn).
+
 Fixpoint diff_loop (fuel : nat) (ea : omap) (lb : log) (stack : list hash) (seen : list hash) (res : omap) : option omap :=
   match stack with
   | [] => Some res
@@ -234,10 +240,7 @@ Fixpoint diff_loop (fuel : nat) (ea : omap) (lb : log) (stack : list hash) (seen
         if negb (ohas (l_entries lb) h) && N.eqb (e_logid eA) (l_id lb) then
           let res' := oset res h eA in
           let seen' := h :: seen in
-          let '(stack'', seen'') :=
-            fold_left (fun '(st, sn) n =>
-                if negb (mem n sn) && negb (ohas (l_entries lb) n) then (st ++ [n], n :: sn) else (st, sn))
-              (e_next eA) (stack', seen') in
+          let '(stack'', seen'') := fold_left (diff_push lb) (e_next eA) (stack', seen') in
           diff_loop f ea lb stack'' seen'' res'
         else diff_loop f ea lb stack' seen res
       | None => diff_loop f ea lb stack' seen res
